@@ -633,6 +633,9 @@ sched_unlock(void)
   select_task();
 
   if (next_task != NULL || process->finished())
+#ifdef KJN_LBZIP2_VERIF
+    verif_trace_event("S", "signal"),
+#endif
     xsignal(&sched_cond);
 
 #ifdef KJN_LBZIP2_VERIF
